@@ -9,7 +9,7 @@ if "--jobs" in sys.argv: args = [a for a in args if a != str(jobs)]
 seed = sys.argv[sys.argv.index("--seed") + 1] if "--seed" in sys.argv else "1"
 if "--seed" in sys.argv: args = [a for a in args if a != seed]
 EXTRA = {"C01-m1": ["C09"], "C03-m2": ["C09", "C01"], "C04-m1": ["C06"], "C05-m1": ["C13"], "C07-m1": ["C06"], "C09-m1": ["C03"],
-         "C11-m2": ["C05"], "C14-m2": ["C19"], "C19-m2": ["C02"]}
+         "C11-m2": ["C05"], "C14-m2": ["C19"], "C19-m2": ["C02"], "C04-m3": ["C07"], "C14-m3": ["C20"]}
 ids = args or sorted(os.path.basename(d) for d in glob.glob("/verif/seeded/C*") if os.path.isdir(d))
 outp = "/verif/seeded/MATRIX.json" if seed == "1" else "/verif/seeded/MATRIX-seed%s.json" % seed
 mat = json.load(open(outp)) if os.path.exists(outp) else {}
